@@ -302,6 +302,15 @@ def main(tier, seed, replay=None):
                 if i % 3 == 0:
                     ex = rng.sample(range(n), rng.randint(2, min(n, 6)))
                 cases.append((scramble(rng, g), n, uff, ex, "random-" + kinds[i % len(kinds)]))
+                if i % 3 == 1:
+                    # a rigid fragment: the exclusion set is exactly the atoms of one bond / angle / dihedral, or that plus one more atom
+                    for ar, terms in ((2, [tuple(b) for b in g]), (3, list(brute_angles(g))), (4, list(brute_dihedrals(g)))):
+                        if terms:
+                            t = rng.choice(sorted(terms))
+                            cases.append((scramble(rng, g), n, uff, sorted(set(t)), "exclude-exactly-%d" % ar))
+                            if i % 6 == 1 and n > ar:
+                                extra = rng.choice([v for v in range(n) if v not in t])
+                                cases.append((scramble(rng, g), n, uff, sorted(set(t) | {extra}), "exclude-term-plus-one"))
         ranks = {s: i for i, s in enumerate(sorted(POOL))}
         lits = []
         for bonds_in, n, uff, ex, kind in cases:
